@@ -57,6 +57,14 @@ CHECKS = {
              "benign marker identifier to have become one identifier token in the dialect's quote character decoding to the name, nothing else "
              "changed. Exhaustive over alphabet x site x dialect within the bound.",
         ref="6/C07", technique="TLA+ reference lexer + identifier encoder round-trip (PT_Lex, MC_Lex); TLC lexes real statement text (J_Lit)"),
+    "C16": dict(
+        text="The intended replace_table is the recursive operator PT_Terms!Replace; TLC proves ReplaceComplete (no reference to old remains, "
+             "every other reference unchanged, idempotent) on every generated expression tree and every pair of sources. Conformance: 46 term "
+             "templates (every Term subclass with a table slot, at each operand position) and 30 statement clause-slot templates (FROM, JOIN item/ON/USING, "
+             "SELECT, WHERE, GROUP BY, HAVING, ORDER BY, SET, RETURNING, DISTINCT ON, ON CONFLICT, CTE, nested subqueries, set operations) x 4 (old,new) "
+             "pairs (plain, aliased, schema) x dialect builders are built on the real library three ways - replaced, rebuilt with the new table from "
+             "the start, and the receiver before/after - and TLC (J_Replace) compares the token streams.",
+        ref="6/C16", technique="TLA+ Replace operator with ReplaceComplete model-checked (PT_Terms); TLC judge of replaced vs rebuilt renderings (J_Replace)"),
     "C17": dict(
         text="TLC generates the full cross product of table constructions (name x 5 schema forms x alias x 3 temporal clauses x 2 query classes = 120), "
              "and 486 expression trees over fields of three tables with overlapping column names in every operand order, computing FieldsOf/TablesOf "
